@@ -15,9 +15,9 @@ CFR_FALLBACK = {E['ENOSYS'], E['EPERM'], E['EXDEV']}
 
 def scenario(driver, variant):
     sc = treerun.Scn(); sc.driver = driver; sc.workers = 2
-    sc.d(b'/W').d(b'/W/S').f(b'/W/S/a').d(b'/W/S/sub').f(b'/W/S/sub/b', text=b'B' * 5000).l(b'/W/S/l', b'a').s(b'/W/S/sub/fifo', 'fifo')
+    sc.d(b'/W').d(b'/W/S').f(b'/W/S/a').d(b'/W/S/sub').f(b'/W/S/sub/b', text=b'B' * 5000).l(b'/W/S/l', b'a').s(b'/W/S/sub/fifo', 'fifo').d(b'/W/S/emptyd')
     if variant == 'overwrite':
-        sc.d(b'/W/DEST').d(b'/W/DEST/S').f(b'/W/DEST/S/a').d(b'/W/DEST/S/sub').s(b'/W/DEST/S/sub/fifo', 'fifo')
+        sc.d(b'/W/DEST').d(b'/W/DEST/S').f(b'/W/DEST/S/a').d(b'/W/DEST/S/sub').s(b'/W/DEST/S/sub/fifo', 'fifo').d(b'/W/DEST/S/emptyd')
     elif variant == 'into':
         sc.d(b'/W/DEST')
     sc.opts = ['r']
@@ -105,12 +105,16 @@ def run(ctx):
                     occ[k] = occ.get(k, 0) + 1
                     errs = list(ERRNOS)
                     if ctx.quick:
-                        errs = rng.sample(errs, 2)
+                        errs = rng.sample(errs, 2) if site != 'walkerMkdir' else list(dict.fromkeys(rng.sample(errs, 2) + ['EEXIST']))
                     for en in errs:
                         if site == 'cloneHard' and E[en] in UNSUP_CLONE: continue
-                        if site == 'walkerMkdir' and en == 'EEXIST': continue      # the natural answer for an existing directory: create_dir_all accepts it
+                        if site == 'walkerMkdir' and en == 'EEXIST' and variant != 'fresh': continue      # the natural answer for an EXISTING directory: create_dir_all accepts it
                         if site == 'dataCopy' and e['sys'] == 'copy_file_range' and E[en] in CFR_FALLBACK: continue
                         plans.append((site, [f'fail {sysn} {key} {occ[k]} {E[en]}'], en))
+                # a short count followed by a hard error on the retry, inside one block / one copy loop of the multi-block file
+                bdst = next((e.get('fdpath') for e in o0.res.trace if e['sys'] == 'copy_file_range' and (e.get('fdpath') or '').endswith('/sub/b')), None)
+                if bdst:
+                    plans.append(('dataCopy', [f'clamp copy_file_range ={bdst} 0 1 700', f'failo copy_file_range ={bdst} 700 1 {E["ENOSPC"]}'], 'short+ENOSPC'))
                 # existence probes of the destination (finding F12): statx of DEST by main / the walker
                 if ctx.quick and variant == 'into':
                     plans = []          # quick: this variant only serves the destination probes
@@ -155,7 +159,12 @@ def run(ctx):
                     ctx.cov['traces_validated_against_impl'] += 1
                     pred = m.split()[1] if m.startswith('ok') else '?'
                     obs = 'nonzero' if cls != '0' else 'zero'
-                    if pred != obs:
+                    if pred == 'nonzero' and obs == 'zero':
+                        # the property itself: a step it lists as needed failed (the injected call), yet xcp exited 0
+                        ctx.violation(f'{driver}-{variant}-{site}-{en}.json', dict(driver=driver, variant=variant, site=site, plan=plan, exit=cls, stderr=err,
+                                                                                   statement='a failed step always yields a non-zero exit', theorems=['Xcp.C04.no_silent_failure_partial']),
+                                      f'C04: the step {site} failed ({plan}) but xcp exited 0')
+                    elif pred != obs:
                         ctx.cov['disagreements_checked'] += 1
                         ctx.violation(f'{driver}-{variant}-{site}-{en}-corr.json', dict(driver=driver, variant=variant, site=site, plan=plan, model=m, exit=cls, stderr=err,
                                                                                         correspondence='exit class under a single injected failure vs Xcp.Errs.exitNonZero', theorems=['Xcp.C04.no_silent_failure_partial']),
